@@ -88,13 +88,28 @@ func genCrashEnumWith(prop string, seed uint64, tweak func(*Profile)) *RunSpec {
 	// survivor (possibly stale) and restart
 	tx1, tx2 := g.txn(), g.txn()
 	tx1.Bad, tx2.Bad = "", ""
-	surv := []OpSpec{{Kind: OpRead, H: 1}, {Kind: OpAdd, H: 1, Txns: []TxnSpec{tx1}}, {Kind: OpAdd, H: 1, Txns: []TxnSpec{tx2}}, {Kind: OpRead, H: 1}}
+	surv := []OpSpec{{Kind: OpRead, H: 1}}
+	if r.Bool(0.4) {
+		// the operator removes the lock file the dead process left behind
+		surv = append(surv, OpSpec{Kind: OpRmLock, H: 1})
+		if r.Bool(0.5) {
+			surv = append(surv, OpSpec{Kind: OpUpToDate, H: 1}, OpSpec{Kind: OpReopen, H: 1, Auto: auto1})
+		}
+	}
+	// two Adds, and possibly CompactAll and Clean, in any order (Clean may
+	// come first, while the left-overs of the crash are newer than the stack)
+	mid := []OpSpec{{Kind: OpAdd, H: 1, Txns: []TxnSpec{tx1}}, {Kind: OpAdd, H: 1, Txns: []TxnSpec{tx2}}}
 	if r.Bool(0.5) {
-		surv = append(surv, OpSpec{Kind: OpCompactAll, H: 1})
+		mid = append(mid, OpSpec{Kind: OpCompactAll, H: 1})
 	}
 	if r.Bool(0.5) {
-		surv = append(surv, OpSpec{Kind: OpClean, H: 1})
+		mid = append(mid, OpSpec{Kind: OpClean, H: 1})
 	}
+	for i := len(mid) - 1; i > 0; i-- {
+		j := r.Intn(i + 1)
+		mid[i], mid[j] = mid[j], mid[i]
+	}
+	surv = append(surv, mid...)
 	surv = append(surv, OpSpec{Kind: OpRead, H: 1}, OpSpec{Kind: OpClose, H: 1})
 	spec.After = []TaskSpec{{Name: "survivor", Ops: surv}}
 	return spec
